@@ -43,6 +43,17 @@ def key_pool(rng, cap, nkeys, long_keys=True):
             k = (base[:16] if base else bytes(rng.randrange(1, 256) for _ in range(16))) + bytes([rng.randrange(256)])
         else:
             k = bytes(rng.randrange(256) for _ in range(ln))
+        if rng.random() < 0.2:
+            # keys of the same length that are identical up to an embedded zero byte and differ after it (memcmp vs strncmp)
+            zs = [b for b in keys if b'\0' in b[1:-1] and len(b) <= 16]
+            if zs and rng.random() < 0.7:
+                b = rng.choice(zs)
+                cut = b.index(b'\0', 1)
+                k = b[:cut + 1] + bytes(rng.randrange(1, 256) for _ in range(len(b) - cut - 1))
+            else:
+                ln2 = rng.choice([3, 4, 6, 9, 16])
+                cut = rng.randrange(1, ln2 - 1)
+                k = bytes(rng.randrange(1, 256) for _ in range(cut)) + b'\0' + bytes(rng.randrange(1, 256) for _ in range(ln2 - cut - 1))
         if k in keys:
             continue
         h = murmur3_32(k) % cap
@@ -281,6 +292,41 @@ def harr_check(ctx, props, focus, replay=None):
     else:
         ex = exhaustive(ctx, 5, 4, [1, 40, 100], 4) + exhaustive(ctx, 3, 3, [1, 40, 100], 5)
     nb += run_histories(ctx, exe, ex, 'exhaustive')
+    if focus == 'C07':
+        hdr_slot = 12 + 84
+        try:
+            cs = open(os.path.join(COQ, 'Gen', 'Consts.v')).read()
+            hdr_slot = int(re.search(r'HARR_HDRSZ : nat := (\d+)', cs).group(1)) + int(re.search(r'HARR_SLOTSZ : nat := (\d+)', cs).group(1))
+        except Exception:
+            pass
+        # (a) constructor on regions too small for the header and one slot: must refuse and write nothing past the region
+        tops = ['tiny %d' % n for n in range(1, hdr_slot + 40)]
+        rc, o, e = ctx.run([exe], inp=('\n'.join(tops) + '\n').encode(), timeout=120)
+        tl = o.decode('latin1').splitlines()
+        for n, line in zip(range(1, hdr_slot + 40), tl):
+            ctx.cov['evaluations'] += 1
+            ctx.count('ctor-tiny')
+            if line in ('CRASH', 'TIMEOUT') or (n < hdr_slot and line != 'null'):
+                ctx.report('impl-vs-spec', {'op': 'ctor', 'observed': 'accepts-or-overruns-too-small-region'},
+                           'qhasharr() on a %d-byte region (< header + one slot = %d): %s' % (n, hdr_slot, line), {'ops': ['tiny %d' % n], 'impl': line})
+                break
+        # (b) the image must be a function of the operation history alone: same history, two different stack paintings
+        sub = [(hdr, [x for o2 in ops for x in ((o2, 'raw') if o2.split()[0] in ('put', 'del', 'delidx', 'clear') else (o2,))]) for hdr, ops in hists[:30 if quick else 200]]
+        lines = []
+        for hdr, ops in sub:
+            lines += hdr + ops
+        data = ('\n'.join(lines) + '\n').encode()
+        outs = []
+        for pat in ('17', '119'):
+            rc, o, e = ctx.run([exe], inp=data, timeout=900, env=dict(os.environ, QV_PAINT=pat))
+            outs.append([l for l in o.decode('latin1').splitlines() if l.startswith('raw ')])
+        ctx.cov['evaluations'] += len(outs[0])
+        ctx.count('raw-image-determinism', len(outs[0]))
+        if outs[0] != outs[1]:
+            k = next((i for i, (a, b) in enumerate(zip(outs[0], outs[1])) if a != b), 0)
+            ctx.report('impl-vs-spec', {'op': 'put', 'observed': 'image-depends-on-stack-contents'},
+                       'the bytes of the region differ between two runs of the same history with differently painted stacks (uninitialised automatic storage, possibly process addresses, is copied into the image)',
+                       {'ops': lines[:60], 'first_differing_raw_index': k, 'runs': [outs[0][k] if k < len(outs[0]) else '', outs[1][k] if k < len(outs[1]) else '']})
     ctx.cov['exhaustive_note'] = 'all put/del histories of bounded depth on small tables (%d histories), in addition to random histories on capacities 2..64' % len(ex)
     ctx.cov['correspondence_mismatches'] = nb
     ctx.cov['traces_validated_against_impl'] = len(hists) + len(ex)
